@@ -54,6 +54,8 @@ func vfC09(w *vfWorld) {
 	idp.Rotate = t.Bool("c09.rotate")
 	idp.IDTokenTTL, idp.AccessTTL = 100*time.Hour, 100*time.Hour
 	refreshFails := t.Prob("c09.refreshfails", 150)
+	// sessions that must be split over several cookies: every part carries the lifetime
+	idp.Padding = vfPick(t, "c09.pad", []int{0, 0, 0, 3500, 7000})
 	reps := w.Standard(cfg, 2)
 	b := w.NewBrowser("B1", "192.0.2.7:4711")
 	atk := w.NewBrowser("ATK", "198.51.100.66:6666")
